@@ -156,6 +156,9 @@ class TreeOracle:
         st = state_of(line)
         kind = w[0]
         err = None
+        if kind == "hugetree":
+            # self-checking pass of the harness over a private table with a value / key of >= 2^31 bytes
+            return None if line == "ok live=0" else "self-checking pass `%s`: %s" % (op, line[:200])
         if kind == "inv":
             # documented invalid arguments: every call fails with EINVAL and the table is unchanged
             bad = [x for x in f[1:13] if x != "0:EINVAL"]
@@ -193,7 +196,7 @@ class TreeOracle:
                      (kind in ("min", "max", "near") and f[0] == "ENOMEM") or (kind == "next" and f[0] == "enomem") or \
                      (kind == "new" and f[0] == "null")
             if kind == "new":
-                self.reset(int(w[1]))
+                self.reset(int(w[1]) % 10)
                 return None
             if failed:
                 if kind == "get":
@@ -203,7 +206,7 @@ class TreeOracle:
                     pass                    # the node stays unvisited: the walk bookkeeping is unchanged
                 return err
         if kind == "new":
-            self.reset(int(w[1]))
+            self.reset(int(w[1]) % 10)
         elif kind in ("put", "putnull"):
             k = unhex(w[1])
             v = unhex(w[2]) if kind == "put" else (NullVal(int(w[2])) if int(w[2]) else b"")
@@ -472,11 +475,42 @@ class TreeCheck(Check):
                 ops += ["walk"]
         return ops
 
+    @staticmethod
+    def epoch_sweep_ops(big=False):
+        """every round inserts a FRESH key (its stamp is the calloc'ed 0), removes an old one and then
+        either walks from a zero cursor or searches and continues: the epoch advances by one or two
+        per round, so over 600 rounds every value of the 8-bit counter (and of any narrower stamp
+        field) meets a freshly inserted node, in both parities"""
+        ops = ["new 0"] + ["put %s 76" % hexs(b"e%03d" % i) for i in range(5)]
+        nxt, old = 5, 0
+        for rnd in range(800 if not big else 2400):
+            ops += ["put %s 77" % hexs(b"e%03d" % nxt), "rm %s" % hexs(b"e%03d" % old)]
+            nxt += 1; old += 1
+            # exactly as many getnext calls as a complete walk needs (5 keys: a surplus call on an
+            # exhausted cursor would start - and advance the epoch of - another walk)
+            if rnd % 3 == 0:
+                ops += ["cursor0"] + ["next"] * 6
+            elif rnd % 3 == 1:
+                ops += ["near %s" % hexs(b"e%03d" % old)] + ["next"] * 5
+            else:       # two searches in a row, each continued to the end (no walk is ever left unfinished here)
+                ops += ["near %s" % hexs(b"e%03d" % (old + 2))] + ["next"] * 5 + ["near %s" % hexs(b"e%03d" % old)] + ["next"] * 5
+        ops += ["walk"]
+        return ops
+
     def corpus_streams(self):
         sts = super().corpus_streams()
         sts.append(Stream("string-level-api", self.stringapi_ops(self.tier != "quick"), history=True))
         if "walk" in self.aspects or "nearest" in self.aspects:
             sts.append(Stream("faults-inside-walks", self.fault_walk_ops(self.tier != "quick"), history=True))
+            sts.append(Stream("epoch-sweep", self.epoch_sweep_ops(self.tier != "quick"), history=True,
+                              note="a fresh key, then a walk / a search with continuation, at EVERY value of the 8-bit epoch (both parities)"))
+        # the same table created thread-safe (single-threaded use must not differ: error reports, errno)
+        ts = [o.replace("new 0", "new 10") for o in self.nulldata_ops(faults=True) + self.fault_walk_ops(False)[:400]]
+        sts.append(Stream("threadsafe-option", ts, history=True))
+        if self.tier != "quick":
+            sts.append(Stream("huge", ["hugetree 2147483649", "hugetree 4294967312"], history=False, nomodel=True,
+                              note="self-checking passes over a private table with one value and one key of 2^31+1 / 2^32+16 bytes: "
+                                   "sizes reported by get / getnext / find_nearest, replacement, removal, order of the 1-byte prefix key"))
         sts.append(Stream("null-data-values", self.nulldata_ops(), history=True))
         return sts
 
